@@ -51,6 +51,17 @@ for c in CHECKS:
     if c['property_id'] in ('C01', 'C02', 'C03', 'C04', 'C05', 'C07', 'C14', 'C15'):
         c['technique'] += SUITE_TECH
 
+EXTRA_TECH = {
+    'C01': '; the C10 scalar matcher catalogue through real expectations (Matchers!Acc)',
+    'C02': '; the C10 scalar matcher catalogue through real expectations (Matchers!Acc)',
+    'C07': '; the C10 scalar matcher catalogue through real expectations (Matchers!Acc)',
+    'C08': '; the reference-returning members of the C09 family (Binding!Expect: the result is the very object)',
+    'C15': '; the C18 value catalogue as reports print it (Printing!Render)',
+    'C17': '; the C18 value catalogue as trace records print it (Printing!Render); concurrent programs with a tracer installed before the threads start (linearization replay)',
+}
+for c in CHECKS:
+    c['technique'] += EXTRA_TECH.get(c['property_id'], '')
+
 CHECKS += [
     other('C10', 'the mathematical predicate of every scalar matcher / combinator is a recursive TLA+ operator (Matchers.tla); TLC checks its algebraic laws over a bounded term universe '
                  'and judges the verdict of the REAL matcher for every catalogue term (all leaves typed and duck-typed, !, *, any_of/all_of/none_of with 0..3 operands, MEMBER_IS, strings, re) on every subject value, each through a real ALLOW_CALL',
